@@ -45,6 +45,18 @@ with ThreadPoolExecutor(jobs) as ex:
     for name, c, status, first in ex.map(run, tasks):
         print(f"{name} {c} {status} {first}", flush=True)
         res.setdefault(name, {})[c] = (status, first)
+# second pass: a change nobody reported yet is shown to the checks that own the usual neighbouring mechanisms (PDU layout, check
+# fields, component codes, frames, purity) as well — a seed filed under one property often lives in the code of another
+SIBLINGS = ["C01", "C03", "C04", "C06", "C10", "C12", "C19"]
+tasks2 = []
+for name, r in res.items():
+    if not any(s_ == "CAUGHT" for s_, _ in r.values()):
+        tasks2 += [(name, str(V / "seeded" / name / "patch.diff"), c) for c in SIBLINGS if c not in r]
+if tasks2:
+    with ThreadPoolExecutor(jobs) as ex:
+        for name, c, status, first in ex.map(run, tasks2):
+            print(f"{name} {c} {status} {first}  [second pass]", flush=True)
+            res.setdefault(name, {})[c] = (status, first)
 if update:
     for name, r in res.items():
         meta = metas[name]
